@@ -136,7 +136,8 @@ var c17ZooExprs = []string{`A == 1`, `A != 1`, `A == 2 or s == "a"`, `not (A == 
 	`"/2" == 3`, `"/1" == 2 and "/0" == 1`, `L.0 == 1`, `L.1 == 1 or L.0 == 2`, `2 in L`,
 	`a["b.c"] == 1 and a.b.c == 1`, `a.b.c == 1 and a["b.c"] == 1`, `a["b.c"] == 1 or a.b.c == 1`, `a["b.c"] != 1 and a.b.c != 1`, `a["b.c"] == 1 and A == 1 and a.b.c == 1`,
 	`"/a~1b/c" == 1 and "/a/b/c" == 1`, `"/a/b/c" == 1 or "/a~1b/c" == 1`, `a/b.c == 1 and "/a/b/c" == 1`, `a/b.c == 1 or a.b.c == 1`, `not (a["b.c"] == 1) and not (a.b.c == 1)`,
-	`A == 1 and A == 1`, `A == 1 or A == 1`, `A == 1 and A != 1`, `A == 1 and (A == 1 or s == "a")`, `s matches "^a$" and s matches "^A$"`, `s matches "a" or s matches "(?i)A"`}
+	`A == 1 and A == 1`, `A == 1 or A == 1`, `A == 1 and A != 1`, `A == 1 and (A == 1 or s == "a")`, `s matches "^a$" and s matches "^A$"`, `s matches "a" or s matches "(?i)A"`,
+	`s matches "(?i)^b$" or s matches "^A$"`, `s matches "(?i)zz" or s matches "^A"`, `s matches "\\Qa.b" or s matches "x\\E|a"`, `s matches "^(?i)C$" or s matches "^B$" or s matches "^a b$"`, `s not matches "(?i)^A$" and s not matches "^b$"`}
 
 var c17NonContainers = []zooEntry{{"nil", nil}, {"int", 5}, {"string", "abc"}, {"bool", true}, {"struct", c17Elem{A: 1}}, {"ptr-to-slice", &[]c17Elem{{A: 1}}}, {"ptr-to-map", &map[string]c17Elem{"x": {A: 1}}},
 	{"ptr-to-struct", &c17Elem{A: 1}}, {"ptr-to-array", &[2]c17Elem{{A: 1}, {A: 2}}}, {"ptr-to-empty-array", &[0]c17Elem{}}, {"ptr-to-ptr-to-slice", func() interface{} { s := []c17Elem{{A: 1}}; p := &s; return &p }()},
